@@ -1,7 +1,7 @@
 From CDD Require Import PyStr Val.
-From CDD Require CstRun AdhocRun GenRun MergeRun DocSplitRun LoopsRun NameSanRun OpenApiRun JsonSchemaRun.
+From CDD Require CstRun AdhocRun GenRun MergeRun DocSplitRun LoopsRun NameSanRun OpenApiRun JsonSchemaRun FuncSigRun NormRun.
 
-Definition tables : list (string * (val -> val)) := CstRun.table ++ AdhocRun.table ++ GenRun.table ++ MergeRun.table ++ DocSplitRun.table ++ LoopsRun.table ++ NameSanRun.table ++ OpenApiRun.table ++ JsonSchemaRun.table.
+Definition tables : list (string * (val -> val)) := CstRun.table ++ AdhocRun.table ++ GenRun.table ++ MergeRun.table ++ DocSplitRun.table ++ LoopsRun.table ++ NameSanRun.table ++ OpenApiRun.table ++ JsonSchemaRun.table ++ FuncSigRun.table ++ NormRun.table.
 
 Definition dispatch (fn : str) (a : val) : val :=
   match lookup_fn fn tables with
